@@ -40,17 +40,29 @@ def uni2tex(text):
         char = text[i]
         code = ord(char)
 
-        # combining marks
-        if unicodedata.category(char) in ("Mn", "Mc") and code in accents:
-            out += "\\%s{%s}" % (accents[code], txt[i + 1])
+        nxt = txt[i + 1] if i + 1 < len(txt) else None
+        # base character followed by a combining mark
+        if (
+            nxt is not None
+            and unicodedata.category(nxt) in ("Mn", "Mc")
+            and ord(nxt) in accents
+        ):
+            out += "\\%s{%s}" % (accents[ord(nxt)], char)
             i += 1
         # precomposed characters
         elif unicodedata.decomposition(char):
-            base, acc = unicodedata.decomposition(char).split()
-            acc = int(acc, 16)
-            base = int(base, 16)
-            if acc in accents:
-                out += "\\%s{%s}" % (accents[acc], chr(base))
+            # only canonical base + accent pairs; compatibility mappings
+            # ("<compat> ...") and singletons pass through unchanged
+            parts = unicodedata.decomposition(char).split()
+            if (
+                len(parts) == 2
+                and not parts[0].startswith("<")
+                and int(parts[1], 16) in accents
+            ):
+                out += "\\%s{%s}" % (
+                    accents[int(parts[1], 16)],
+                    chr(int(parts[0], 16)),
+                )
             else:
                 out += char
         else:
